@@ -681,6 +681,9 @@ class TaskScenario(ScenarioData):
             previous_effort = self.doneEffort
 
             self.currentSlotIdx += delta
+            # The intra-slot start offset describes the slot that contains the dependency
+            # bound only; later slots are free from their beginning.
+            self.slotStartOffset = 0.0
             if self.currentSlotIdx < lowerLimit or self.currentSlotIdx > upperLimit:
                 self.isRunAway = True
                 return False
